@@ -6,7 +6,9 @@
            vertices never added explicitly), for any vertex type with a
            decidable equality and a strict total order.
    Part 2: SortObjs / ReverseSortObjs on object lists (ids with their
-           depends-on annotation and CRD payload), ordering.less on ids. *)
+           depends-on annotation, the source references of their
+           apply-time-mutation annotation and their CRD payload): all four
+           edge passes of DependencyGraph; ordering.less on ids. *)
 From Coq Require Import List Bool Arith Permutation Sorting.Sorted String.
 From CliUtils Require Import Model.ObjSet Model.ObjId Model.Graph Model.DepGraph
      Proofs.ObjIdProofs Proofs.GraphProofs Proofs.DepGraphProofs Proofs.C14Proofs.
@@ -149,6 +151,59 @@ Theorem C14_objs_explicit : forall objs (o : obj id) l w,
   In o objs -> odeps o = Deps l -> In w l -> In w (map oid objs) -> id_dep_rel objs (oid o) w.
 Proof. exact (dep_rel_explicit id id_eqb id_eqb_spec (fun x => x)). Qed.
 
+(* a mutation source that is an object of the set is part of the relation *)
+Theorem C14_objs_mutation : forall objs (o : obj id) l w,
+  In o objs -> omuts o = Muts l -> In w l -> In w (map oid objs) -> id_dep_rel objs (oid o) w.
+Proof. exact (dep_rel_mutation id id_eqb id_eqb_spec (fun x => x)). Qed.
+
+(* the relation in full: CRD edge, namespace edge, depends-on reference inside
+   the set, apply-time-mutation source inside the set — nothing else *)
+Theorem C14_objs_dep_rel_char : forall objs v w,
+  id_dep_rel objs v w <->
+  (exists o, In o objs /\ oid o = v /\
+             In w (crd_lookup (fun x => x) objs (gk_string (grp v) (knd v))))
+  \/ (exists o, In o objs /\ oid o = v /\ ns v <> EmptyString /\
+                In w (ns_lookup (fun x => x) objs (ns v)))
+  \/ (exists o l, In o objs /\ oid o = v /\ odeps o = Deps l /\ In w l /\ In w (map oid objs))
+  \/ (exists o l, In o objs /\ oid o = v /\ omuts o = Muts l /\ In w l /\ In w (map oid objs)).
+Proof. exact (dep_rel_char id id_eqb id_eqb_spec (fun x => x)). Qed.
+
+(* the annotation errors: an id is reported iff an object with that id has
+     a depends-on annotation that is unparseable, names a reference twice or
+       names an object outside the set              (id_dep_annot_bad), or
+     an apply-time-mutation annotation that is unparseable or names a source
+       outside the set — a repeated source is accepted   (id_mut_annot_bad) *)
+Theorem C14_objs_bad : forall objs s,
+  id_sort_objs objs = Some s ->
+  forall v, In v (s_bad s) <->
+            exists o, In o objs /\ oid o = v /\
+                      (id_dep_annot_bad objs o \/ id_mut_annot_bad objs o).
+Proof. exact (objs_bad id id_eqb id_eqb_spec id_ltb (fun x => x)). Qed.
+
+(* reported pass by pass: the objects rejected by addDependsOnEdges, then the
+   objects rejected by addApplyTimeMutationEdges, each in object order *)
+Theorem C14_objs_bad_passes : forall objs s,
+  id_sort_objs objs = Some s ->
+  s_bad s = depends_on_errors id_eqb objs ++ mutation_errors id_eqb objs
+  /\ (forall v, In v (depends_on_errors id_eqb objs) <->
+                exists o, In o objs /\ oid o = v /\ id_dep_annot_bad objs o)
+  /\ (forall v, In v (mutation_errors id_eqb objs) <->
+                exists o, In o objs /\ oid o = v /\ id_mut_annot_bad objs o).
+Proof. exact (objs_bad_passes id id_eqb id_eqb_spec id_ltb (fun x => x)). Qed.
+
+Theorem C14_objs_no_bad : forall objs s,
+  id_sort_objs objs = Some s ->
+  (s_bad s = [] <->
+   forall o, In o objs -> ~ id_dep_annot_bad objs o /\ ~ id_mut_annot_bad objs o).
+Proof. exact (objs_no_bad id id_eqb id_eqb_spec id_ltb (fun x => x)). Qed.
+
+(* the set of reported ids does not depend on the order of the object list *)
+Theorem C14_objs_bad_perm : forall objs objs' s s',
+  Permutation objs objs' ->
+  id_sort_objs objs = Some s -> id_sort_objs objs' = Some s' ->
+  forall v, In v (s_bad s) <-> In v (s_bad s').
+Proof. exact (objs_bad_perm id id_eqb id_eqb_spec id_ltb (fun x => x)). Qed.
+
 Theorem C14_objs_layer_order : forall objs s,
   id_sort_objs objs = Some s ->
   Forall (StronglySorted id_lt) (s_sets s) /\ StronglySorted id_lt (cyc_ids id s).
@@ -181,13 +236,13 @@ Definition crdB := mkId "apiextensions.k8s.io" "CustomResourceDefinition" "" "b.
 Definition cmX := mkId "" "ConfigMap" "default" "cm".
 Definition crX := mkId "example.com" "Foo" "default" "cr".
 Definition amb1 : list (obj id) :=
-  [mkObj crdA (Deps [cmX]) (Some ("example.com", "Foo")%string);
-   mkObj crdB NoAnnot (Some ("example.com", "Foo")%string);
-   mkObj cmX NoAnnot None; mkObj crX NoAnnot None].
+  [mkObj crdA (Deps [cmX]) NoMut (Some ("example.com", "Foo")%string);
+   mkObj crdB NoAnnot NoMut (Some ("example.com", "Foo")%string);
+   mkObj cmX NoAnnot NoMut None; mkObj crX NoAnnot NoMut None].
 Definition amb2 : list (obj id) :=
-  [mkObj crdB NoAnnot (Some ("example.com", "Foo")%string);
-   mkObj crdA (Deps [cmX]) (Some ("example.com", "Foo")%string);
-   mkObj cmX NoAnnot None; mkObj crX NoAnnot None].
+  [mkObj crdB NoAnnot NoMut (Some ("example.com", "Foo")%string);
+   mkObj crdA (Deps [cmX]) NoMut (Some ("example.com", "Foo")%string);
+   mkObj cmX NoAnnot NoMut None; mkObj crX NoAnnot NoMut None].
 (* two CRDs define Foo: the custom resource comes after both, in either order *)
 Example C14_example_two_providers :
   id_sort_objs amb1 = Some (mkSorted [[crdB; cmX]; [crdA]; [crX]] None [])
@@ -199,8 +254,8 @@ Definition rvB := mkId "" "ConfigMap" "default" "b".
 Definition rvC := mkId "" "ConfigMap" "default" "c".
 Definition rvD := mkId "" "ConfigMap" "default" "d".
 Definition rv_objs : list (obj id) :=
-  [mkObj rvA (Deps [rvB]) None; mkObj rvB (Deps [rvA]) None;
-   mkObj rvC NoAnnot None; mkObj rvD (Deps [rvC]) None].
+  [mkObj rvA (Deps [rvB]) NoMut None; mkObj rvB (Deps [rvA]) NoMut None;
+   mkObj rvC NoAnnot NoMut None; mkObj rvD (Deps [rvC]) NoMut None].
 (* a cycle is reported and the sortable part is still reversed *)
 Example C14_example_reverse_with_cycle :
   id_reverse_sort_objs rv_objs = Some (mkSorted [[rvD]; [rvC]] (Some [rvA; rvB]) []).
@@ -224,10 +279,53 @@ Proof. vm_compute. reflexivity. Qed.
 Definition nsX := mkId "" "Namespace" "" "default".
 Definition crdF := mkId "apiextensions.k8s.io" "CustomResourceDefinition" "" "foos.example.com".
 Definition ex_objs : list (obj id) :=
-  [mkObj crX (Deps [cmX]) None; mkObj cmX NoAnnot None; mkObj nsX NoAnnot None;
-   mkObj crdF NoAnnot (Some ("example.com", "Foo")%string)].
+  [mkObj crX (Deps [cmX]) NoMut None; mkObj cmX NoAnnot NoMut None; mkObj nsX NoAnnot NoMut None;
+   mkObj crdF NoAnnot NoMut (Some ("example.com", "Foo")%string)].
 Example C14_example_implicit :
   id_sort_objs ex_objs = Some (mkSorted [[nsX; crdF]; [cmX]; [crX]] None []).
+Proof. vm_compute. reflexivity. Qed.
+
+(* both annotation kinds, on different objects:
+     a  depends-on [b]                          -> edge a -> b
+     c  mutation sources [b; b; a]              -> edges c -> b, c -> a; the
+                                                   repeated source is no error
+     d  depends-on [b] and mutation source [b]  -> one edge through two passes
+     e  depends-on [b; b]                       -> rejected (duplicate), edge e -> b kept
+     f  mutation sources [b; x], x not in the set -> rejected (external), edge f -> b kept
+     g  unparseable mutation annotation         -> rejected, no edge
+     h  unparseable depends-on annotation and external mutation source
+                                                -> rejected by both passes
+   reported: depends-on pass [e; h], then mutation pass [f; g; h] *)
+Definition muA := mkId "" "ConfigMap" "default" "a".
+Definition muB := mkId "" "ConfigMap" "default" "b".
+Definition muC := mkId "" "ConfigMap" "default" "c".
+Definition muD := mkId "" "ConfigMap" "default" "d".
+Definition muE := mkId "" "ConfigMap" "default" "e".
+Definition muF := mkId "" "ConfigMap" "default" "f".
+Definition muG := mkId "" "ConfigMap" "default" "g".
+Definition muH := mkId "" "ConfigMap" "default" "h".
+Definition muX := mkId "" "ConfigMap" "default" "x".
+Definition mu_objs : list (obj id) :=
+  [mkObj muH BadAnnot (Muts [muX]) None;
+   mkObj muG NoAnnot BadMut None;
+   mkObj muF NoAnnot (Muts [muB; muX]) None;
+   mkObj muE (Deps [muB; muB]) NoMut None;
+   mkObj muD (Deps [muB]) (Muts [muB]) None;
+   mkObj muC NoAnnot (Muts [muB; muB; muA]) None;
+   mkObj muB NoAnnot NoMut None;
+   mkObj muA (Deps [muB]) NoMut None].
+Example C14_example_mutation :
+  id_sort_objs mu_objs
+  = Some (mkSorted [[muB; muG; muH]; [muA; muD; muE; muF]; [muC]] None [muH; muE; muH; muG; muF])
+  /\ all_edges id_eqb (fun x => x) mu_objs
+     = [(muE, muB); (muD, muB); (muA, muB); (muF, muB); (muD, muB); (muC, muB); (muC, muA)].
+Proof. split; vm_compute; reflexivity. Qed.
+
+(* a mutation annotation alone closes a cycle with a depends-on annotation *)
+Definition mu_cyc : list (obj id) :=
+  [mkObj muA (Deps [muB]) NoMut None; mkObj muB NoAnnot (Muts [muA]) None; mkObj muC NoAnnot NoMut None].
+Example C14_example_mutation_cycle :
+  id_sort_objs mu_cyc = Some (mkSorted [[muC]] (Some [muA; muB]) []).
 Proof. vm_compute. reflexivity. Qed.
 
 (* the kind-order tables of the model are the ones extracted from
@@ -254,6 +352,12 @@ Print Assumptions C14_objs_order.
 Print Assumptions C14_objs_minimal.
 Print Assumptions C14_objs_cycles.
 Print Assumptions C14_objs_explicit.
+Print Assumptions C14_objs_mutation.
+Print Assumptions C14_objs_dep_rel_char.
+Print Assumptions C14_objs_bad.
+Print Assumptions C14_objs_bad_passes.
+Print Assumptions C14_objs_no_bad.
+Print Assumptions C14_objs_bad_perm.
 Print Assumptions C14_objs_layer_order.
 Print Assumptions C14_objs_perm_inv.
 Print Assumptions C14_reverse_objs.
@@ -262,4 +366,6 @@ Print Assumptions C14_example_reverse_with_cycle.
 Print Assumptions C14_example_graph.
 Print Assumptions C14_example_objs.
 Print Assumptions C14_example_implicit.
+Print Assumptions C14_example_mutation.
+Print Assumptions C14_example_mutation_cycle.
 Print Assumptions C14_tables_from_source.
